@@ -229,6 +229,7 @@ theorem loadSegments_ok {st : Store} {l : List SegInfo} {ds : List Delta}
         rfl
       · cases h
     · cases h
+    · cases h
 
 /-- every listed segment is a complete object iff loading succeeds -/
 theorem loadSegments_ok_iff {st : Store} {l : List SegInfo} :
@@ -249,6 +250,7 @@ theorem loadSegments_ok_iff {st : Store} {l : List SegInfo} :
           | head => exact ⟨ds0, hg⟩
           | tail _ ht' => exact (ih.mp ⟨r, hr⟩) t ht'
         · cases h
+      · cases h
       · cases h
     · intro h
       obtain ⟨ds0, hg⟩ := h s (by simp)
